@@ -48,10 +48,34 @@ func RunC13(tier string) int {
 				}
 			}
 		}
+		// external failure causes of three kinds: the command exits non-zero, it exits 0 but
+		// leaves its declared outputs missing, or it exits 0 but destroys the condition its own
+		// output check asserts (the check passed before the execution). A failed execution of a
+		// tainted target must not use up the taint, whatever the failure looks like.
+		var checkMarkers []string
 		for _, t := range s.Targets {
 			if r.Chance(1, 3) && !t.HasTag("no-cache") {
-				t.FailIf = "markers/fail_" + t.Name
+				switch k := r.Intn(3); {
+				case k == 1 && len(t.AllOuts()) > 0:
+					t.OmitIf = "markers/omit_" + t.MID()
+				case k == 2:
+					m := "markers/ok_" + t.MID()
+					t.Checks = append(t.Checks, spec.Check{Marker: m})
+					t.Untouch, t.UntouchIf = m, "markers/break_"+t.MID()
+					checkMarkers = append(checkMarkers, m)
+				default:
+					t.FailIf = "markers/fail_" + t.MID()
+				}
 			}
+		}
+		failCtl := func(t *spec.Target) string {
+			switch {
+			case t.FailIf != "":
+				return t.FailIf
+			case t.OmitIf != "":
+				return t.OmitIf
+			}
+			return t.UntouchIf
 		}
 		gcfg := randCfg(r)
 		minimal := r.Chance(1, 3)
@@ -65,6 +89,9 @@ func RunC13(tier string) int {
 		}
 		env.MaybeTTY(run, fmt.Sprint(i), 6)
 		env.EnableHookLog()
+		for _, m := range checkMarkers {
+			env.SetMarker(m, true)
+		}
 		keep := false
 		defer func() {
 			if !keep {
@@ -105,7 +132,7 @@ func RunC13(tier string) int {
 				case x < 5: // toggle an external failure cause of a (possibly tainted) target
 					var cands []*spec.Target
 					for _, t := range env.Spec.Targets {
-						if t.FailIf != "" {
+						if failCtl(t) != "" {
 							cands = append(cands, t)
 						}
 					}
@@ -114,10 +141,15 @@ func RunC13(tier string) int {
 						break
 					}
 					t := rng.Pick(r, cands)
-					on := env.markerOn(t.FailIf)
-					env.SetMarker(t.FailIf, !on)
+					ctl := failCtl(t)
+					on := env.markerOn(ctl)
+					env.SetMarker(ctl, !on)
+					if t.Untouch != "" {
+						env.SetMarker(t.Untouch, true) // the checked condition holds (again) when the build starts
+					}
 					name = map[bool]string{true: "failure-cause-removed", false: "failure-cause-set"}[on]
-					env.Logf("%s: %s", name, t.FailIf)
+					env.Logf("%s: %s", name, ctl)
+					run.Count("failure_cause_toggled:"+strings.SplitN(strings.TrimPrefix(ctl, "markers/"), "_", 2)[0], 1)
 					if !on && r.Chance(1, 2) {
 						res := env.RunTaint([]string{t.Label()})
 						if res.Exit != 0 {
